@@ -525,6 +525,15 @@ inline std::vector<long> range(long lo, long hi)
 }
 inline std::string shape(sz r, sz c) { return std::to_string(r) + "x" + std::to_string(c); }
 
+// Products whose left operand has more rows than columns ("tall left", rows(left) >
+// inner dimension) are instantiated only in the second binary C14b (C14_WITH_TALL=1): a
+// library change that breaks just this shape class must not take the run-time verdict
+// of all other shards with it.  Each such instantiation class is also a compile probe.
+#ifndef C14_WITH_TALL
+#define C14_WITH_TALL 0
+#endif
+constexpr bool tall_left_ok(sz rows, sz inner) { return rows <= inner || C14_WITH_TALL != 0; }
+
 // shard registration entry points of the translation units
 void register_m2();
 void register_m3();
@@ -536,6 +545,7 @@ void register_rect_c();
 void register_rect_d();
 void register_vec();
 void register_dim();
+void register_shapes();
 void register_narrow();
 void register_narrow_mixed_a();
 void register_narrow_mixed_b();
